@@ -156,3 +156,50 @@ def iterrowselect(h):
         ctx.oblige('iterrowselect: the header is passed through first, once; nothing after the last row',
                    z3.And(pre.len == 1, _t(row_eq(out_row(pre, 0), src_row(S, 0))), res.out.len == 0))
     h.explore(body)
+
+
+# ------------------------------------------------------------------------------------------------ slicing
+BA = 'petl.transform.basics.'
+
+
+def slice_task(name, sliceargs_builder, lo_hi):
+    @vc('C13.iterrowslice.' + name, functions=[BA + 'iterrowslice'], props=['C13', 'C03', 'C20'],
+        assumptions=['T2: itertools.islice(it, start, stop) yields exactly the elements with index start <= i < stop of what is left of `it` (step 1)',
+                     'stateless-body rule (engine meta-theorem)'])
+    def task(h):
+        def body(ctx):
+            sa = sliceargs_builder(ctx)
+            lo, hi = lo_hi(sa)
+
+            def delta(ls, x, dout):
+                d = ls.k.t - 1          # index among the data rows
+                ctx.oblige('rowslice(%s): every selected row is yielded once, as a tuple of itself, and its position is inside the requested window' % name,
+                           z3.And(dout.len == 1, _t(row_eq(out_row(dout, 0), x)), lo <= d, (d < hi) if hi is not None else z3.BoolVal(True)))
+            it = h.interp(ctx, loops={(BA + 'iterrowslice', 0): LoopSpec(delta=delta, label='window rows')})
+            it.check_pulls = False
+            S = sym_table(ctx, 'S', nmin=1)
+            res = run_generator(it, closure_of(it, BA + 'iterrowslice'), [S, sa])
+            if res.exc is not None:
+                ctx.oblige('rowslice: never raises for non-negative bounds', z3.BoolVal(False), res.exc.origin or '')
+                return
+            ev = [e for e in it.trace if e[0] == 'islice']
+            ctx.oblige('rowslice: the slice arguments are handed to islice unchanged, over the data rows (after the header)',
+                       z3.BoolVal(len(ev) == 1 and len(ev[0][2]) == len(sa) and all(a is b for a, b in zip(ev[0][2], sa))))
+            if getattr(ctx, 'after_loop', None):
+                w = [o for o in [res.env.lookup('it')] if True][0]
+                pre = ctx.pre_loop_out
+                ctx.oblige('rowslice: the header first, once; the window covers every data row with start <= index < stop; nothing afterwards',
+                           z3.And(pre.len == 1, _t(row_eq(out_row(pre, 0), src_row(S, 0))), res.out.len == 0))
+        h.explore(body)
+    return task
+
+
+def _nn(ctx, name):
+    v = sym_int(name)
+    ctx.assume(v.t >= 0)
+    return v
+
+
+slice_task('stop', lambda ctx: (_nn(ctx, 'stop'),), lambda sa: (z3.IntVal(0), sa[0].t))
+slice_task('start-stop', lambda ctx: (_nn(ctx, 'start'), _nn(ctx, 'stop')), lambda sa: (sa[0].t, sa[1].t))
+slice_task('start-none', lambda ctx: (_nn(ctx, 'start'), None), lambda sa: (sa[0].t, None))
